@@ -63,6 +63,7 @@ type req struct {
 }
 
 type resp struct {
+	trunc bool // udp read: the datagram was longer than the caller's buffer (MSG_TRUNC)
 	n     int
 	from  netip.AddrPort
 	data  []byte
@@ -781,15 +782,17 @@ func (s *Sim) doRead(r *req, alt int) {
 			k.qbytes -= charge(len(d.data))
 		}
 		n := len(d.data)
+		trunc := false
 		if n > r.n {
 			n = r.n // the rest of the datagram is discarded, as recvfrom(2) does
+			trunc = true
 			s.Stats["read-truncated"]++
 		}
 		if expired {
 			s.Stats["tie:data-at-deadline"]++
 		}
 		s.logG(r.g, Ev{Kind: "read", Sock: k.ID, Src: d.from.String(), Dst: d.tag, N: n, Data: d.data[:n], Note: itoa(int64(len(d.data)))})
-		s.reply(r, resp{n: n, from: d.from, data: d.data[:n]})
+		s.reply(r, resp{n: n, from: d.from, data: d.data[:n], trunc: trunc})
 		return
 	}
 	if k.rst {
